@@ -171,3 +171,125 @@ def discharge(ob: Obligation, timeout_ms: int = 30000, try_cvc5: bool = True) ->
         # unknown: try to obtain a candidate model without quantified lemmas (finite model candidates are replayed)
         results.append(Result(ob, "unknown", "z3", dt, sub=idx, goal_text=gt, reason=reason))
     return results
+
+
+# ---- finite instantiation: candidate counter-models for goals the solver leaves undecided ----------------------------------
+def finite_candidate(hyps: list, goal, params: dict, max_len: int = 6, timeout_ms: int = 20000, n_models: int = 8):
+    """The VC with every sequence parameter limited to `max_len` elements and every universal quantifier replaced by its
+    instances over a finite set of terms (integers -1..max_len+1; for other sorts the ground terms of that sort that
+    occur).  The result is quantifier-free, so the solver can produce a model; the instantiated formula is *weaker* than
+    the VC, so a model is only a candidate: the caller replays it on the real function and believes nothing else.
+    Returns up to `n_models` different parameter assignments."""
+    import itertools
+    t_end = time.time() + timeout_ms / 1000
+    fs = list(spec.axioms()) + list(TOpaque.distinct_axioms()) + list(spec.opaque_axioms()) + list(hyps) + [z3.Not(goal)]
+    for v in params.values():
+        if hasattr(v.ty, "len") and not isinstance(v.t, list):
+            try:
+                fs.append(v.ty.len(v.t) <= max_len)
+            except Exception:  # noqa: BLE001
+                pass
+    g = z3.Goal()
+    g.add(*fs)
+    try:
+        nnf = z3.Tactic("nnf")(g)[0]  # negation normal form; existentials become skolem functions
+    except z3.Z3Exception:
+        return []
+    forms = list(nnf)
+    ints = [z3.IntVal(i) for i in range(-1, max_len + 2)]
+
+    def ground_terms(sort, pool):
+        out, seen = [], set()
+        for f in pool:
+            stack = [f]
+            while stack and len(out) < 12:
+                x = stack.pop()
+                if x.get_id() in seen:
+                    continue
+                seen.add(x.get_id())
+                if z3.is_quantifier(x):
+                    continue
+                if z3.is_app(x):
+                    if x.sort().eq(sort) and not _has_var(x):
+                        out.append(x)
+                    stack.extend(x.children())
+        return out or [z3.FreshConst(sort, "fi")]
+
+    def inst(f, depth=0):
+        if time.time() > t_end:
+            raise TimeoutError
+        if z3.is_quantifier(f):
+            if not f.is_forall() or depth > 3:
+                return z3.BoolVal(True)  # (weaker: dropped)
+            n = f.num_vars()
+            doms = []
+            for k in range(n):
+                srt = f.var_sort(k)
+                doms.append(ints if srt == z3.IntSort() else ground_terms(srt, forms)[:6])
+            size = 1
+            for d in doms:
+                size *= len(d)
+            if size > 1200:
+                doms = [d[:max(2, int(1200 ** (1 / n)))] for d in doms]
+            body = f.body()
+            parts = []
+            for combo in itertools.product(*doms):
+                parts.append(inst(z3.substitute_vars(body, *reversed(combo)), depth + 1))
+            return z3.And(*parts) if parts else z3.BoolVal(True)
+        if z3.is_app(f) and f.sort() == z3.BoolSort() and f.num_args() and any(_contains_quantifier(c) for c in f.children()):
+            return f.decl()(*[inst(c, depth) if c.sort() == z3.BoolSort() else c for c in f.children()])
+        return f
+    s = z3.Solver()
+    s.set("timeout", max(1000, int((t_end - time.time()) * 1000)))
+    try:
+        for f in forms:
+            s.add(inst(f))
+    except (TimeoutError, z3.Z3Exception):
+        return []
+    out = []
+    for _ in range(n_models):
+        if time.time() > t_end or s.check() != z3.sat:
+            break
+        m = s.model()
+        out.append(read_model(m, params))
+        # ask for a different assignment of the parameters next
+        diff = []
+        for v in params.values():
+            if isinstance(v.t, list):
+                continue
+            try:
+                diff.append(v.t != m.eval(v.t, model_completion=True))
+            except z3.Z3Exception:
+                pass
+        if not diff:
+            break
+        s.add(z3.Or(*diff))
+    return out
+
+
+def _has_var(t) -> bool:
+    stack, seen = [t], set()
+    while stack:
+        x = stack.pop()
+        if x.get_id() in seen:
+            continue
+        seen.add(x.get_id())
+        if z3.is_var(x):
+            return True
+        if z3.is_app(x):
+            stack.extend(x.children())
+    return False
+
+
+def _contains_quantifier(t) -> bool:
+    stack, seen = [t], set()
+    while stack:
+        x = stack.pop()
+        if x.get_id() in seen:
+            continue
+        seen.add(x.get_id())
+        if z3.is_quantifier(x):
+            return True
+        if z3.is_app(x):
+            stack.extend(x.children())
+    return False
